@@ -82,7 +82,7 @@ def check(w):
     gokr = w.build_repo_cmd()
     if quick:
         scen = []
-        line = lambda s: (tuple(s["base"]), tuple(s["extra"]), tuple(s["paths"]))
+        line = lambda s: (tuple(s["base"]), tuple(s["extra"]), tuple(s["paths"]), bool(s.get("noreply")))
         anon_exec, auth_exec, other = {}, {}, []
         for s in allscen:
             if s["req"] != "exec":
